@@ -500,7 +500,10 @@ func reachableAfterUnlock(fn *ssa.Function, lock, at ssa.Instruction, isUnlock f
 
 // muFieldOf: v is the address of a mutex field (possibly of an embedded mutex): returns the field.
 func muFieldOf(v ssa.Value) *types.Var {
-	return fieldOfAddr(v)
+	if f := fieldOfAddr(v); f != nil {
+		return f
+	}
+	return loadedField(v) // pointer-typed mutex field: s.lock.Lock()
 }
 
 // ---------------------------------------------------------------------------------------
